@@ -390,6 +390,16 @@ impl Execute for ast::Pipeline {
             wait_for_pipeline_processes_and_update_status(self, spawn_results, shell, &params)
                 .await?;
 
+        // Every stage of a multi-command pipeline runs in its own copy of the shell (unless
+        // `lastpipe` keeps the final one in this shell), so a break/continue/return/exit inside a
+        // stage ends that stage, not the shell running the pipeline.
+        let last_stage_ran_in_this_shell = self.seq.len() == 1
+            || (shell.options().run_last_pipeline_cmd_in_current_shell
+                && !shell.options().enable_job_control);
+        if !last_stage_ran_in_this_shell {
+            result.next_control_flow = crate::results::ExecutionControlFlow::Normal;
+        }
+
         // Invert the exit code if requested (but not the code carried by a `return`/`exit` that is
         // leaving the function or shell through this pipeline).
         if self.bang && !result.is_return_or_exit() {
